@@ -7,7 +7,7 @@
 #include <stdint.h>
 
 #define SCH_MAXT 4
-#define SCH_MAXPTS 6000
+#define SCH_MAXPTS 40000
 #define SCH_MAXOBS 48
 
 enum { PK_NONE = 0, PK_ACCESS, PK_LOCK, PK_UNLOCK, PK_START, PK_RANGE };
@@ -23,7 +23,7 @@ typedef struct {
     volatile int status; int npoints; int nthreads;
     int race; uint32_t race_off; uint8_t race_t1, race_t2, race_w1, race_w2; uintptr_t race_pc1, race_pc2; int race_point;
     int nobs[SCH_MAXT]; int64_t obs[SCH_MAXT][SCH_MAXOBS];
-    uint64_t shared_hash;
+    uint64_t shared_hash; int profile_miss;
     sch_point pts[SCH_MAXPTS];
 } sch_trace;
 
@@ -36,4 +36,6 @@ int  sch_run(void);                       /* returns status */
 void sch_obs(int64_t v);                  /* record an observation for the calling controlled thread */
 int  sch_self(void);
 uintptr_t sch_data_base(void);
+void sch_profile_alloc(void);             /* allocate the (MAP_SHARED) written-location map; call once before forking */
+void sch_profile(int on);                 /* while on, every store to .data/.bss is recorded in the map (sequential profiling run) */
 #endif
